@@ -122,6 +122,18 @@ func goCtx() pongo2.Context {
 		"cel":  celsiusT(100),
 		"nms":  namesT{"n0", "n1"},
 		"usr":  userT{baseT{7, "root"}, "u-name"},
+		// struct types without a name (and two different types both called "row" in their functions) whose fields of
+		// the same name sit at different positions
+		"an1": struct {
+			Name string
+			ID   int
+		}{"n1", 1},
+		"an2": struct {
+			ID   int
+			Name string
+		}{2, "n2"},
+		"an3":  struct{ Name int }{33},
+		"row1": localRow1(), "row2": localRow2(),
 		"usrp": &userT{baseT{8, "admin"}, "up-name"},
 		"usrq": userPT{&baseT{9, "ptr"}, "uq-name"},
 		// implicit execution context in front of 3, 5 and 7 written arguments
@@ -142,6 +154,27 @@ func goCtx() pongo2.Context {
 		"fpc": func(i int) string { panic(struct{ Code int }{i}) },
 		"fpp": func(p *Leaf) string { return p.Name },
 	}
+}
+
+type codeErr struct{ Code int }
+
+func (e *codeErr) Error() string { return fmt.Sprint("code ", e.Code) }
+
+func localRow1() any {
+	type row struct {
+		Name string
+		ID   int
+	}
+	return row{"r1", 11}
+}
+
+func localRow2() any {
+	type row struct {
+		By   string
+		ID   int
+		Name string
+	}
+	return row{"b2", 22, "r2"}
 }
 
 type colorT string
@@ -352,6 +385,11 @@ func modelCtx() map[string]*Node {
 			return n
 		}(),
 		"usr":  {K: "struct", Map: map[string]*Node{"ID": nInt(7), "By": nStr("root"), "Name": nStr("u-name")}, Hidden: []string{"baseT"}},
+		"an1":  {K: "struct", Map: map[string]*Node{"Name": nStr("n1"), "ID": nInt(1)}},
+		"an2":  {K: "struct", Map: map[string]*Node{"Name": nStr("n2"), "ID": nInt(2)}},
+		"an3":  {K: "struct", Map: map[string]*Node{"Name": nInt(33)}},
+		"row1": {K: "struct", Map: map[string]*Node{"Name": nStr("r1"), "ID": nInt(11)}},
+		"row2": {K: "struct", Map: map[string]*Node{"Name": nStr("r2"), "ID": nInt(22), "By": nStr("b2")}},
 		"usrp": {K: "struct", Map: map[string]*Node{"ID": nInt(8), "By": nStr("admin"), "Name": nStr("up-name")}, Hidden: []string{"baseT"}, IsPtr: true},
 		"usrq": {K: "struct", Map: map[string]*Node{"ID": nInt(9), "By": nStr("ptr"), "Name": nStr("uq-name")}, Hidden: []string{"baseT"}},
 		"fps":  fn(nil, false, func(a []*Node) (*Node, bool) { return nil, true }),
@@ -789,7 +827,20 @@ func (c *TagBoundCase) Exec(t *eng.T) {
 		"fmapn": func(m map[string]int) int { return len(m) }, "fsln": func(l []string) int { return len(l) },
 		"fany": func(a any) string { return fmt.Sprint(a == nil) },
 		"fvar": func(ps ...*Leaf) int { return len(ps) },
-		"add2": func(a, b int) int { return a + b }, "one": func(a int) int { return a }}
+		"add2": func(a, b int) int { return a + b }, "one": func(a int) int { return a },
+		"an1": struct {
+			Name string
+			ID   int
+		}{"n1", 1},
+		"an2": struct {
+			ID   int
+			Name string
+		}{2, "n2"},
+		"an3":  struct{ Name int }{33},
+		"row1": localRow1(), "row2": localRow2(),
+		// functions whose second result is a concrete error type: a nil pointer of it is "no error"
+		"fte":  func() (string, *codeErr) { return "ok", nil },
+		"ftef": func() (string, *codeErr) { return "", &codeErr{Code: 7} }}
 	out := px.Render(nil, c.Src, ctx)
 	t.Outcome(out.String())
 	if c.Want == "ERROR" {
@@ -809,23 +860,32 @@ type ShadowCase struct {
 	// (1 = set, 2 = with), and the parameter may have a default
 	Outer   int  `json:"outer,omitempty"`
 	Default bool `json:"default,omitempty"`
+	// Inc: the name is read inside an included file (1 = static include, 2 = name computed at run time), which sees
+	// the includer's names with the same precedence
+	Inc int `json:"inc,omitempty"`
 }
 
 func (c *ShadowCase) ID() string {
-	return fmt.Sprintf("shadow mask=%04b outer=%d default=%v", c.Mask, c.Outer, c.Default)
+	return fmt.Sprintf("shadow mask=%04b outer=%d default=%v inc=%d", c.Mask, c.Outer, c.Default, c.Inc)
 }
 
 func (c *ShadowCase) Exec(t *eng.T) {
 	t.Nontrivial()
-	set, _ := px.NewSet(nil)
+	set, _ := px.NewSet(map[string]string{"/probe": "{{ x.v }}"})
 	if c.Mask&1 != 0 {
 		set.Globals["x"] = map[string]any{"v": "G"}
 	}
-	ctx := pongo2.Context{}
+	ctx := pongo2.Context{"pn": "probe"}
 	if c.Mask&2 != 0 {
 		ctx["x"] = map[string]any{"v": "C"}
 	}
 	src := "{{ x.v }}"
+	switch c.Inc {
+	case 1:
+		src = `{% include "probe" %}`
+	case 2:
+		src = `{% include pn %}`
+	}
 	want := ""
 	if c.Mask&1 != 0 {
 		want = "G"
@@ -906,7 +966,7 @@ func callForms() []Step {
 }
 
 func run(r *eng.Runner) {
-	firsts := []string{"fps", "fpe", "fpp", "qm", "cel", "nms", "usr", "usrp", "usrq", "am", "cm", "nm", "r", "rv", "m", "im", "l", "arr", "s", "i", "nilv", "missing", "f0", "f2", "fvar", "ferr", "fval", "fctx", "fmap", "val", "stg"}
+	firsts := []string{"fps", "fpe", "fpp", "an1", "an2", "an3", "row1", "row2", "qm", "cel", "nms", "usr", "usrp", "usrq", "am", "cm", "nm", "r", "rv", "m", "im", "l", "arr", "s", "i", "nilv", "missing", "f0", "f2", "fvar", "ferr", "fval", "fctx", "fmap", "val", "stg"}
 	sinks := []string{"print", "length", "if"}
 	callSinks := []string{"print", "length", "if", "repeat"}
 	steps := stepsFor()
@@ -916,7 +976,7 @@ func run(r *eng.Runner) {
 	if !r.Quick() {
 		depth = 3
 	}
-	r.Group("paths", "c08.case", fmt.Sprintf("every path of <=%d dot steps (43 step forms: valid and invalid keys, fields, unexported fields, methods, indices) from 22 context roots (struct pointer and value, maps with string, int, any and named-string keys, a named map type, slices, arrays, strings, scalars, nil, funcs of every accepted signature, *Value), optionally ending in one of 16 subscript forms (string subscripts that are also method names of the value included), x 3 sinks", depth))
+	r.Group("paths", "c08.case", fmt.Sprintf("every path of <=%d dot steps (43 step forms: valid and invalid keys, fields, unexported fields, methods, indices) from 27 context roots (struct pointer and value, unnamed and same-named local struct types with their fields in different positions, maps with string, int, any and named-string keys, a named map type, slices, arrays, strings, scalars, nil, funcs of every accepted signature, *Value), optionally ending in one of 16 subscript forms (string subscripts that are also method names of the value included), x 3 sinks", depth))
 	var rec func(first string, path []Step)
 	emit := func(first string, path []Step) {
 		for _, sk := range sinks {
@@ -995,15 +1055,21 @@ func run(r *eng.Runner) {
 		{`{% with k=pk %}{{ l[k] }}{% endwith %}{% set j = pk8 %}{{ arr[j] }}`, "l112"},
 		{`{{ fnil(lp) }}|{{ fnil(np) }}|{% with q=np %}{{ fnil(q) }}{% endwith %}`, "L|nil-leaf|nil-leaf"},
 		{`{{ fmapn(nm) }}|{{ fsln(ns) }}|{{ fvar(lp, np) }}|{{ fany(missing) }}`, "0|0|2|true"},
+		// different struct types with fields of the same name, one after the other in ONE rendering
+		{`{{ an1.Name }}|{{ an2.Name }}|{{ an3.Name }}|{{ row1.Name }}|{{ row2.Name }}|{{ an2.ID }}|{{ an1.ID }}|{{ row2.ID }}|{{ row1.ID }}|{{ row1.By }}|{{ row2.By }}`, "n1|n2|33|r1|r2|2|1|22|11||b2"},
+		{`{{ row2["Name"] }}|{{ row1["Name"] }}|{{ an3["Name"] }}|{{ an2["Name"] }}|{{ an1["Name"] }}|{{ an3.ID }}|{{ an1.ID }}`, "r2|r1|33|n2|n1||1"},
+		{`{{ fte() }}|{{ fte()|upper }}`, "ok|OK"}, {`{{ ftef() }}`, "ERROR"},
 		// an argument list written after an argument list is not more arguments for the first call
 		{`{{ add2(1)(2) }}`, "ERROR"}, {`{{ add2(1, 2) }}`, "3"}, {`{{ one(1)(2) }}`, "ERROR"}, {`{{ add2()(1, 2) }}`, "ERROR"}, {`{{ fvar()(lp) }}`, "ERROR"},
 	} {
 		tb := tb
 		r.Do(&tb)
 	}
-	r.Group("shadowing", "c08.shadow", "the same name in globals / caller context / tag scope (with) / tag scope (set) / an omitted macro parameter (with and without a default, with the name also bound by set / with in the scope that defines and calls the macro): all presence combinations")
+	r.Group("shadowing", "c08.shadow", "the same name in globals / caller context / tag scope (with) / tag scope (set) / an omitted macro parameter (with and without a default, with the name also bound by set / with in the scope that defines and calls the macro), read directly and inside an included file (static and computed name): all presence combinations")
 	for m := 0; m < 32; m++ {
 		r.Do(&ShadowCase{Mask: m})
+		r.Do(&ShadowCase{Mask: m, Inc: 1})
+		r.Do(&ShadowCase{Mask: m, Inc: 2})
 		if m&16 != 0 {
 			for outer := 0; outer <= 2; outer++ {
 				for _, d := range []bool{false, true} {
